@@ -3,7 +3,12 @@ from . import c17
 
 
 def main():
-    return c17.run("C16")
+    from . import core, defaults
+    V = core.Verdicts("C16")
+    extra = defaults.run(V)              # documented defaults reach the tables (PPDefaults / Trace_Defaults)
+    rc1 = V.finish()
+    rc2 = c17.run("C16", extra_cov=extra, prior=len(V.violations))
+    return 1 if (rc1 or rc2) else 0
 
 
 def replay(path):
